@@ -6,6 +6,9 @@
     (C) drop '..' components before joining. A containment test on the un-normalised join is not one.
  R1s symlinks: a sanitiser that consults the host file system for links must resolve links in every
     component (realpath) before the containment test, not only in the last component
+ R1t terminal link: a sanitiser that tests the joined host path with os.path.islink never returns that
+    path along a branch on which the test did not come out false (e.g. a depth or flag conjunct that skips the
+    resolution): the host kernel would follow the link in the host name space
  R2 sinks: every host file-system call in the emulated OS layers takes a path produced by one of the
     sanitisers (def-use), the configured exceptions being listed with a reason
 """
@@ -18,7 +21,7 @@ ENV = "miasm/os_dep/linux/environment.py"
 COM = "miasm/os_dep/common.py"
 WIN = "miasm/os_dep/win_api_x86_32.py"
 LEVEL_TEXT = ("Taint/sanitiser rules: every guest->host path function must use one of three enumerated containment "
-              "idioms that make '..' harmless (checked on its AST/def-use), link resolution must cover every component, "
+              "idioms that make '..' harmless (checked on its AST/def-use), link resolution must cover every component, the joined path is never returned where its islink test did not come out false, "
               "and every host file-system call in os_dep must receive a sanitised path. Decides these clauses for all "
               "guest paths; performs no file-system access.")
 ASSUMPTIONS = ["CPython ast; os.path.normpath/join/realpath semantics as documented",
@@ -108,6 +111,48 @@ def run(ck):
             ck.ob("R1s", q, real, m.where(fn),
                   "%s follows a link only when the last component is one (os.path.islink on the joined path): a directory link "
                   "inside the sandbox pointing outside is traversed by the host open()" % q)
+
+    # ------------------------------------------------------------------ R1t
+    ck.rule("R1t", "the joined host path is returned only where its islink() test came out false or it was rebound", floor=1)
+    for rel, q in SANITISERS:
+        m = ck.repo.mod(rel)
+        fn = m.func(q)
+        tested = set()
+        for c in walk_body(fn):
+            if isinstance(c, ast.Call) and dotted(c.func) == "os.path.islink" and c.args and isinstance(c.args[0], ast.Name):
+                tested.add(c.args[0].id)
+        for v in sorted(tested):
+            cfg = CFG(fn)
+            is_join = lambda val: isinstance(val, ast.Call) and dotted(val.func) == "os.path.join"
+
+            def flow(node, st, v=v):
+                if node.kind == "stmt" and isinstance(node.ast, (ast.Assign, ast.AugAssign)):
+                    tg = node.ast.targets if isinstance(node.ast, ast.Assign) else [node.ast.target]
+                    if any(isinstance(t, ast.Name) and t.id == v for t in tg):
+                        # rebinding: the joined path itself is 'unsafe until tested'; anything else (recursive
+                        # resolution, the guest-side link text for lstat-like callers) is not the untested join
+                        return "unsafe" if is_join(node.ast.value) else "safe"
+                return st
+
+            def edge(node, label, st, v=v):
+                if node.kind == "test" and isinstance(node.ast, ast.Call) and dotted(node.ast.func) == "os.path.islink" \
+                        and node.ast.args and norm(node.ast.args[0]) == v:
+                    return "safe" if label is False else st
+                if node.kind == "test" and isinstance(node.ast, ast.UnaryOp) and isinstance(node.ast.op, ast.Not) \
+                        and isinstance(node.ast.operand, ast.Call) and dotted(node.ast.operand.func) == "os.path.islink" \
+                        and node.ast.operand.args and norm(node.ast.operand.args[0]) == v:
+                    return "safe" if label is True else st
+                return st
+
+            join = lambda a, b: "safe" if a == b == "safe" else ("unsafe" if "unsafe" in (a, b) else a)
+            IN, _OUT = cfg.forward("na", flow, join, edge)
+            for nd in cfg.nodes:
+                if nd.kind == "stmt" and isinstance(nd.ast, ast.Return) and isinstance(nd.ast.value, ast.Name) \
+                        and nd.ast.value.id == v and nd.id in IN:
+                    ck.ob("R1t", "%s:return %s" % (q, v), IN[nd.id] != "unsafe", m.where(nd.ast),
+                          "%s can return the joined host path `%s` along a branch where os.path.islink(%s) was not found "
+                          "false and the link was not resolved: consumers hand it to the host kernel, which follows the link "
+                          "outside the sandbox" % (q, v, v))
 
     # ------------------------------------------------------------------ R2
     files = [r for r in ck.repo.pyfiles("miasm/os_dep") if r.endswith(".py")]
